@@ -1,5 +1,7 @@
 """C13 - Setup and dispose reach every system once; setup never clobbers."""
 from .. import anchors as A
+from .. import semq as Q
+from .. import worldrules as W
 from .. import fanout as F
 from ..facts import Callee, AnchorError
 from .. import datarules as D
@@ -56,7 +58,20 @@ def noclobber(ctx, report, facts, config):
                     "deref_mut", "borrow_mut", "try_borrow_mut"])
     n_sites = 0
     allowed_seen = 0
+    # World::insert reached only from `if !has_value::<T>() { insert::<T>(..) }` sites fills an empty slot: what it does
+    # inside is then not a replacement (the DefaultProvider rule below decides the guard path-sensitively)
+    wi = facts.maybe(A.WORLD + "::insert")
+    guarded_only = False
+    if wi is not None:
+        sites = [(cb, bb) for cb, bb in facts.callers().get(wi.key, []) if cb.key in cone]
+        guarded_only = bool(sites) and all(_guarded_by_absence(prog, cb, bb, Callee(cb.blocks[bb]["term"]["func"])) for cb, bb in sites)
+    skip = set()
+    if guarded_only:
+        ibi = facts.maybe(A.WORLD + "::insert_by_id")
+        skip = set([wi.key] + ([ibi.key] if ibi is not None else []))
     for b in sorted(cone.values(), key=lambda b: b.key):
+        if b.key in skip:
+            continue
         report.touched(b, config)
         for bb, t in b.normal_calls():
             c = Callee(t["func"])
@@ -92,6 +107,11 @@ def noclobber(ctx, report, facts, config):
                     ok = b.qname == A.ENTRY + "::or_insert_with"
                     why = "std Entry::or_insert_with (vacant-only insertion)"
                     allowed_seen += 1 if ok else 0
+                elif c.name == "insert" and "VacantEntry" in c.path:
+                    # the same insertion written as `match entry { Vacant(v) => v.insert(..), Occupied(o) => o.into_mut() }`
+                    ok = b.qname == A.ENTRY + "::or_insert_with"
+                    why = "VacantEntry::insert (vacant-only insertion)"
+                    allowed_seen += 1 if ok else 0
                 elif c.name == "entry" and b.qname == A.WORLD + "::entry":
                     ok = True
                     why = "HashMap::entry inside World::entry (no modification by itself)"
@@ -102,20 +122,59 @@ def noclobber(ctx, report, facts, config):
                           why if ok else "setup cone mutates the resource table through %s" % c.short(), site=b.loc(bb), config=config)
     report.ob(rule, "or_insert_with-reached", allowed_seen >= 1,
               "the only table-modifying call in the setup cone is Entry::or_insert_with (%d site)" % allowed_seen, config=config)
-    # the guard returned by or_insert_with is dropped unused in DefaultProvider::setup
+    # DefaultProvider::setup, looked into all the way down to the table: the only thing that can happen to the resource
+    # table is that a vacant slot keyed by the handler's own type receives the default value; nothing is done to what
+    # is already there, and the guard is not written through
     dp = facts.one(name="setup", trait=A.T_SETUPHANDLER, pred=lambda b: "DefaultProvider" in (b.self_ty or ""))
     report.touched(dp, config)
-    calls = [(bb, Callee(t["func"])) for bb, t in dp.normal_calls()]
-    names = [c.name for _, c in calls]
-    ok = names == ["entry", "or_insert_with"] and all(c.local for _, c in calls)
-    report.ob(rule, "DefaultProvider::setup", ok,
-              "calls %s (expected exactly World::entry then Entry::or_insert_with, result unused)" % names, site=dp.loc(), config=config)
-    if ok:
-        c = calls[0][1]
-        targs = [a["s"] for a in c.type_args()]
-        impl_t = "T"
-        report.ob(rule, "DefaultProvider::setup/key", targs == [impl_t],
-                  "World::entry::<%s> for SetupHandler<T>" % ",".join(targs), site=dp.loc(calls[0][0]), config=config)
+    ev, ends = Q.sem(ctx, facts, dp, opaque=[A.RESID + "::new", A.RESID + "::assert_same_type_id"])
+    pr = []
+    n_fill = 0
+    rets = [e for e in ends if e.kind == "return"]
+    if not rets:
+        pr.append("no normal path")
+    for e in ends:
+        if e.kind == "diverge":
+            pr.append("the default handler can panic")
+    for e in rets:
+        absent = set()   # id terms known to be absent from the table on this path
+        for (ct, cv, cn, cs) in e.path.conds:
+            if Q.is_call(ev, ct, "contains_key") and cv == 0:
+                absent.add(Q.strip(ev, ct[2][1]))
+        for x in W._deep(e.path.events):
+            if x[0] != "call" or x[2].local and x[2].name not in ("deref_mut",):
+                continue
+            c, a = x[2], x[3]
+            if c.name == "insert" and "VacantEntry" in c.path:
+                src = Q.strip(ev, a[0])
+                # the vacant entry of resources.entry(ResourceId::new::<T>())
+                ent = src[1][1] if src[0] == "field" and src[1][0] == "variant" and src[1][2] == "Vacant" else None
+                while isinstance(ent, tuple) and ent[0] == "field" and ent[3] in (A.ENTRY,):
+                    ent = ent[1]
+                if isinstance(ent, tuple) and ent[0] == "agg" and ent[2].startswith(A.ENTRY):
+                    ent = dict(zip(ent[4], ent[3])).get("inner")
+                ent = Q.strip(ev, ent) if ent is not None else None
+                k = Q.strip(ev, ent[2][1]) if Q.is_call(ev, ent, "entry") and len(ent[2]) == 2 else None
+                if not (k is not None and Q.is_call(ev, k, "new") and Q.callee_of(ev, k).self_head == A.RESID and ev.targs(k) == ["T"]):
+                    pr.append("the filled slot is not the one keyed by the handler's own type")
+                if not W._boxed_as(ev, a[1], "T", lambda v: Q.is_call(ev, v, "default") or (Q.callee_of(ev, v) is not None and Q.callee_of(ev, v).name in ("call_once", "default"))):
+                    pr.append("the value stored is not T::default()")
+                n_fill += 1
+            elif c.name == "insert" and not c.local and a and W._table_recv(ev, a[0]):
+                if Q.strip(ev, a[1]) in absent:
+                    n_fill += 1
+                else:
+                    pr.append("the table's `insert` is reached without knowing the slot is empty: an existing resource would be replaced")
+            elif c.name in ("remove", "clear", "retain", "drain", "remove_entry", "and_modify", "get_mut", "extend") and not c.local and a and W._table_recv(ev, a[0]):
+                pr.append("the table is modified through `%s`" % c.name)
+            elif c.name in ("deref_mut", "downcast_mut_unchecked"):
+                rty = ev.self_arg(x[4]) or ""
+                if "FetchMut" in rty or "Write<" in rty or c.name == "downcast_mut_unchecked":
+                    pr.append("the existing resource is written through the returned guard")
+    if rets and not n_fill:
+        pr.append("no path stores the default value")
+    report.ob(rule, "DefaultProvider::setup", not pr,
+              "fills the vacant slot of its own type with T::default(); an existing resource is neither replaced nor written" if not pr else "; ".join(sorted(set(pr))), site=dp.loc(), config=config)
     # accessors that must create nothing
     quiet = []
     quiet += facts.find(name="setup", trait=A.T_SETUPHANDLER, pred=lambda b: "PanicHandler" in (b.self_ty or ""))
